@@ -81,12 +81,14 @@ LexCmp(a, b) ==
 TypeRank(t) == CASE t = "int" -> 1 [] t = "float" -> 1 [] t = "bool" -> 3 [] t = "nil" -> 4
                  [] t = "str" -> 8 [] t = "arr" -> 9
 Num2(k) == IF k.t = "int" THEN 2 * k.n ELSE k.n    \* twice the mathematical value
+\* numbers at the ends of the int64 range: b = 1 counts from MaxInt64, b = -1 from MinInt64 (n is then the distance), else 0
+NumEnd(k)  == IF "b" \in DOMAIN k THEN k.b ELSE 0
 
 RECURSIVE KCmp(_, _)
 RECURSIVE ElemsCmp(_, _, _)
 KCmp(a, b) ==
   IF TypeRank(a.t) # TypeRank(b.t) THEN Sign(TypeRank(a.t) - TypeRank(b.t))
-  ELSE CASE a.t \in {"int", "float"} -> Sign(Num2(a) - Num2(b))
+  ELSE CASE a.t \in {"int", "float"} -> IF NumEnd(a) # NumEnd(b) THEN Sign(NumEnd(a) - NumEnd(b)) ELSE Sign(Num2(a) - Num2(b))
          [] a.t = "bool" -> Sign(a.n - b.n)
          [] a.t = "nil"  -> 0
          [] a.t = "str"  -> LexCmp(a.s, b.s)
